@@ -1,9 +1,10 @@
 // UNIT LNR — LineReader::find_line and the reader's line stores: the Line handed out for an offset is the file's line around that
 // offset, whatever the block size (C12, C02).  Under contract: find_line (whole 750-line function, six loops, termination included),
-// insert_line (its two debug assertions are proved at every call site), get_linep, lines_contains, check_store.  The store
-// invariant (every stored line is a true line of the file keyed by its first byte, its last byte recorded in foend_to_fobeg, and
-// vice versa) is required on entry and re-established on exit.  Assumed by contract: the block reader (unit RBK), LinePart / Line
-// (unit BLK), the LRU cache look-up check_store_LRU, `BTreeMap::range(k..).next()` (stand-in: least key >= k), vstd's BTreeMap specs.
+// insert_line (its two debug assertions are proved at every call site), get_linep, lines_contains, check_store, check_store_LRU.
+// The store invariant (every stored line is a true line of the file keyed by its first byte, its last byte recorded in
+// foend_to_fobeg and vice versa, every cached answer is the good line around its key) is required on entry and re-established on exit.
+// Assumed by contract: the block reader (unit RBK), LinePart / Line (unit BLK), the lru crate's get / put by their view,
+// `BTreeMap::range(k..).next()` (stand-in: least key >= k), vstd's BTreeMap specs.
 #![feature(allocator_api)]
 #![allow(unused_imports, non_camel_case_types, dead_code, unused_variables, unused_parens, unused_mut, unused_assignments, non_snake_case, unused_labels, non_upper_case_globals)]
 use vstd::prelude::*;
@@ -134,7 +135,7 @@ pub open spec fn tail_whole(l: Seq<LinePart>, bs: int, n: int) -> bool {
 }
 /// constant facts about the reader during one call
 pub open spec fn ctx(s: &LineReader, s0: &LineReader, f: Seq<u8>, bs: int, fsz: int) -> bool {
-    s.same(s0) && s.lines == s0.lines && s.foend_to_fobeg == s0.foend_to_fobeg && s.wf() && f == s.f() && bs == s.bs() && fsz == f.len() && bs >= 1 && fsz + bs < u64::MAX && s.charsz_ == 1
+    s.same(s0) && s.lines == s0.lines && s.foend_to_fobeg == s0.foend_to_fobeg && s.find_line_lru_cache == s0.find_line_lru_cache && s.wf() && f == s.f() && bs == s.bs() && fsz == f.len() && bs >= 1 && fsz + bs < u64::MAX && s.charsz_ == 1
 }
 /// min(bo * bs, fsz): how far the first `bo` blocks reach
 pub open spec fn upto(bo: int, bs: int, fsz: int) -> int { if bo * bs < fsz { bo * bs } else { fsz } }
@@ -288,11 +289,24 @@ impl BlockReader {
     { unimplemented!() }
 }
 pub type ResultS3LineFind = ResultS3<(FileOffset, LineP), Error>;
+// ---- assumed: the lru crate's cache by its view (as in unit RBK): get returns what is stored, put stores the pair and may evict others
 #[verifier::external_body]
 pub struct LinesLRUCache { _p: u8 }
 impl LinesLRUCache {
+    pub uninterp spec fn view(&self) -> Map<FileOffset, ResultS3LineFind>;
     #[verifier::external_body]
-    pub fn put(&mut self, k: FileOffset, v: ResultS3LineFind) { unimplemented!() }
+    pub fn get(&mut self, k: &FileOffset) -> (r: Option<&ResultS3LineFind>)
+        ensures final(self)@ == old(self)@, r is Some <==> old(self)@.contains_key(*k), r is Some ==> *r.unwrap() == old(self)@[*k]
+    { unimplemented!() }
+    #[verifier::external_body]
+    pub fn put(&mut self, k: FileOffset, v: ResultS3LineFind) -> (r: Option<ResultS3LineFind>)
+        ensures final(self)@.contains_key(k) && final(self)@[k] == v,
+            forall|j: FileOffset| #[trigger] final(self)@.contains_key(j) && j != k ==> old(self)@.contains_key(j) && final(self)@[j] == old(self)@[j],
+    { unimplemented!() }
+}
+/// a cached answer for offset k: a Found is the good line around k with the offset after it
+pub open spec fn cached_ok(f: Seq<u8>, bs: int, k: FileOffset, v: ResultS3LineFind) -> bool {
+    v is Found ==> good_line(f, bs, *v->Found_0.1, k as int) && v->Found_0.0 as int == l_end(*v->Found_0.1) + 1
 }
 /// the reader's own stores (real types, vstd's BTreeMap specs): `lines` maps a line's first byte to the line, `foend_to_fobeg` its last byte
 /// to its first byte
@@ -310,6 +324,8 @@ pub struct LineReader {
     pub find_line_lru_cache_enabled: bool,
     pub find_line_lru_cache: LinesLRUCache,
     pub find_line_lru_cache_put: Count,
+    pub find_line_lru_cache_hit: Count,
+    pub find_line_lru_cache_miss: Count,
     pub lines_hits: Count,
     pub lines_miss: Count,
 }
@@ -352,6 +368,8 @@ impl LineReader {
                 && self.foend_to_fobeg@.contains_key(l_end(*self.lines@[k]) as u64) && self.foend_to_fobeg@[l_end(*self.lines@[k]) as u64] == k
         &&& forall|e: FileOffset| #[trigger] self.foend_to_fobeg@.contains_key(e) ==> self.lines@.contains_key(self.foend_to_fobeg@[e])
                 && l_end(*self.lines@[self.foend_to_fobeg@[e]]) == e
+        // every cached answer is right
+        &&& forall|k: FileOffset| #[trigger] self.find_line_lru_cache@.contains_key(k) ==> cached_ok(self.f(), self.bs(), k, self.find_line_lru_cache@[k])
     }
     pub open spec fn same(&self, o: &Self) -> bool { self.f() == o.f() && self.bs() == o.bs() && self.charsz_ == o.charsz_ }
     /// some stored line covers byte `fo`
@@ -374,12 +392,15 @@ impl LineReader {
         requires blockoffset * self.bs() + blockindex <= u64::MAX
         ensures r as int == blockoffset * self.bs() + blockindex
     { unimplemented!() }
-    /// ASSUMED: the two look-ups return only what find_line stored earlier -- the line around the offset and the offset after it
-    #[verifier::external_body]
-    pub fn check_store_LRU(&mut self, fileoffset: FileOffset) -> (r: Option<ResultS3LineFind>)
-        ensures final(self).same(old(self)), final(self).lines == old(self).lines, final(self).foend_to_fobeg == old(self).foend_to_fobeg, final(self).wf() == old(self).wf(),
-            r is Some && r.unwrap() is Found ==> good_line(old(self).f(), old(self).bs(), *r.unwrap()->Found_0.1, fileoffset as int) && r.unwrap()->Found_0.0 as int == l_end(*r.unwrap()->Found_0.1) + 1,
-    { unimplemented!() }
+//@cut fn path=src/readers/linereader.rs impl=LineReader name=check_store_LRU ret=r
+//@replace "self.find_line_lru_cache_hit += 1;" "verif_count_inc(&mut self.find_line_lru_cache_hit);"
+//@replace "self.find_line_lru_cache_miss += 1;" "verif_count_inc(&mut self.find_line_lru_cache_miss);"
+//@spec
+    requires old(self).wf()
+    ensures final(self).same(old(self)), final(self).lines == old(self).lines, final(self).foend_to_fobeg == old(self).foend_to_fobeg, final(self).wf(),
+        // a cached Found is the good line around the offset
+        r is Some && r.unwrap() is Found ==> good_line(old(self).f(), old(self).bs(), *r.unwrap()->Found_0.1, fileoffset as int) && r.unwrap()->Found_0.0 as int == l_end(*r.unwrap()->Found_0.1) + 1,
+//@end
     // assumed: is this the file's last byte
     #[verifier::external_body]
     pub fn is_line_last(&self, linep: &LineP) -> bool { unimplemented!() }
@@ -690,7 +711,7 @@ impl LineReader {
 //@mutate "bi_middle_end = bi_at;" "bi_middle_end = bi_middle;"
 //@mutate "fo_nl_a1 = fo_nl_a + charsz_fo;" "fo_nl_a1 = fo_nl_a;"
 //@mutate "bi_middle_end = bi_stop - charsz_bi;" "bi_middle_end = bi_stop;"
-//@mutate "bi_at -= charsz_bi;" "bi_at -= charsz_bi; if bi_at > 0 { bi_at -= 1; }"
+//@mutate ".put(fileoffset, ResultS3LineFind::Found((fo_end + 1, linep.clone())));" ".put(fileoffset, ResultS3LineFind::Found((fo_end, linep.clone())));"
 //@before "let linep: LineP = self.insert_line(line);" *
             proof {
                 broadcast use group_btree_axioms;
